@@ -77,6 +77,7 @@ def run(tier, seed):
                        '(queue-rule lemma event_step_SIS) every pending attempt u->v goes along an edge from an infected u strictly before rec_time[u], a next attempt being queued only before the source\'s recovery; '
                        'that these facts persist as a statement about the finished list (order, one entry per infection) is only observed by the bounded stand-in. '
                        'Constructor binding for every simulator. fast_nonMarkov_SIS, generic and discrete simulators are decided only by the bounded native stand-in.')
-    rep.assumptions += ['queue rule and heapq contract as in C04/C11', 'Simulation_Investigation.transmissions() / transmission_tree() return the stored list / its sourced entries (checked natively)']
+    rep.assumptions += ['ASSUMED callee (not verified): _transform_to_node_history_(..., SIR=False) is an opaque call in the Gillespie_SIS full-data unit - only which objects it is given is decided; the ghost index maps ghost_pt / ghost_ps are assigned only by the contract\'s ghost update at the end of a pass of the main loop',
+                        'queue rule and heapq contract as in C04/C11', 'Simulation_Investigation.transmissions() / transmission_tree() return the stored list / its sourced entries (checked natively)']
     rep.not_covered += ['a list invariant over the finished transmission list of fast_SIS (per-entry validity is proved at recording time only); unbounded contracts for the transmissions of fast_nonMarkov_SIS, Gillespie_simple_contagion, discrete simulators; the rho / single-node / default spellings of the Gillespie full-data paths are verified in the thorough tier only']
     return rep, util.native_replayer
